@@ -25,8 +25,7 @@ func init() {
 				c.O.Err("other")
 				return
 			}
-			r := &rtp.Packet{}
-			try(func() { _ = r.Unmarshal(cloneBytes(prev)) })
+			r := caDirtyReceiver(c, prev)
 			if try(func() { err = r.Unmarshal(cloneBytes(bs)) }) {
 				c.O.Panic()
 				return
